@@ -1123,11 +1123,14 @@ static Error JitAllocatorImpl_shrink(JitAllocatorPrivateImpl* impl, JitAllocator
   uint32_t area_end = uint32_t(Support::bit_vector_index_of(block->_stop_bit_vector, area_start, true)) + 1;
   uint32_t area_prev_size = area_end - area_start;
   uint32_t span_prev_size = area_prev_size * pool->granularity;
-  uint32_t area_shrunk_size = pool->area_size_from_byte_size(new_size);
 
-  if (ASMJIT_UNLIKELY(area_shrunk_size > area_prev_size)) {
+  // `new_size` is a `size_t` - it has to be compared before it's narrowed, because `area_size_from_byte_size()` both
+  // wraps (`size + granularity - 1`) and truncates to 32 bits, which would turn a huge `new_size` into a tiny area.
+  if (ASMJIT_UNLIKELY(new_size > size_t(span_prev_size))) {
     return make_error(Error::kInvalidArgument);
   }
+
+  uint32_t area_shrunk_size = pool->area_size_from_byte_size(new_size);
 
   uint32_t area_diff = area_prev_size - area_shrunk_size;
   if (area_diff) {
